@@ -21,6 +21,7 @@ void Interpolation::applyRestriction0(const Level& fromLevel, const Level& toLev
 
 #pragma omp parallel for
     for (int index = 0; index < coarseGrid.numberOfNodes(); index++) {
+        VERIF_ITER(index);
         MultiIndex coarse_node = coarseGrid.multiIndex(index);
         MultiIndex fine_node(2 * coarse_node[0], 2 * coarse_node[1]);
 
@@ -122,6 +123,7 @@ void Interpolation::applyRestriction(const Level& fromLevel, const Level& toLeve
 /* For loop matches circular access pattern */
 #pragma omp for nowait
         for (int i_r_coarse = 0; i_r_coarse < coarseNumberSmootherCircles; i_r_coarse++) {
+            VERIF_ITER(i_r_coarse);
             int i_r = i_r_coarse * 2;
             for (int i_theta_coarse = 0; i_theta_coarse < coarseGrid.ntheta(); i_theta_coarse++) {
                 int i_theta = i_theta_coarse * 2;
@@ -196,6 +198,7 @@ void Interpolation::applyRestriction(const Level& fromLevel, const Level& toLeve
 /* For loop matches circular access pattern */
 #pragma omp for nowait
         for (int i_theta_coarse = 0; i_theta_coarse < coarseGrid.ntheta(); i_theta_coarse++) {
+            VERIF_ITER(i_theta_coarse);
             int i_theta = i_theta_coarse * 2;
             for (int i_r_coarse = coarseNumberSmootherCircles; i_r_coarse < coarseGrid.nr(); i_r_coarse++) {
                 int i_r = i_r_coarse * 2;
